@@ -4,6 +4,7 @@ import os
 import re
 
 from ..core.engine import Res
+from ..core.rules import exhaustive_loop
 from ..core.rules import (who_calls, who_writes, must_pass, order, wire, guard, guard_inventory, err_inventory, inventory_check,
                           call_matches)
 from ..core.origins import Origins
@@ -35,6 +36,10 @@ def _load(name):
 
 def run(ctx):
     P = ctx.P
+    ctx.check('EXHAUSTIVE-LOOP', 'unmerged bookkeeping covers the whole direct path', lambda P_: exhaustive_loop(P_, 'TreeKemPublic::update_unmerged'), floor=1)
+    ctx.check('EXHAUSTIVE-LOOP', 'every node of the update path is installed', lambda P_: exhaustive_loop(P_, 'TreeKemPublic::apply_update_path'), floor=1)
+    ctx.check('EXHAUSTIVE-LOOP', 'hash refresh visits every queued node', lambda P_: exhaustive_loop(P_, 'tree_hash::tree_hash'), floor=1)
+    ctx.check('EXHAUSTIVE-LOOP', 'every node of the received path is unfiltered into place', lambda P_: exhaustive_loop(P_, 'update_path::validate_update_path'), floor=1)
     cfg = ctx.config
     PC = 'MessageProcessor::process_commit'
     ctx.check('HASH-CACHE', 'receiver: hashes updated before the context tree hash is read',
@@ -129,7 +134,7 @@ def run(ctx):
               lambda P_: who_writes(P_, 'TreeKemPublic', 'nodes',
                                     [r'^TreeKemPublic::', r'^TreeKem::encap$', r'^TreeKemPublic as (Clone|Default|MlsDecode)::',
                                      r'^(Client|ExternalClient)::load_group_with_ratchet_tree$', r'^ExternalGroup::snapshot_without_ratchet_tree$',
-                                     r'^Group::write_to_storage_without_ratchet_tree$']), floor=8)
+                                     r'^Group::write_to_storage_without_ratchet_tree$', r'^RawGroupState::(export|import)$']), floor=8)
     A = 'TreeKemPublic::add_leaf'
     ctx.check('MUST-PASS', 'add_leaf: new leaf recorded as unmerged', lambda P_: must_pass(P_, A, r'TreeKemPublic::update_unmerged$'), floor=1)
     ctx.check('ORDER', 'add_leaf: inserted before unmerged bookkeeping', lambda P_: order(P_, A, r'NodeVec::insert_leaf$', r'TreeKemPublic::update_unmerged$'), floor=1)
